@@ -87,6 +87,8 @@ mod ext;
 
 mod graph;
 pub use graph::Graph;
+#[cfg(feature = "verif_hooks")]
+pub use graph::verif::{VerifEdge, VerifSnapshot};
 
 pub(crate) use graph::adjacent_node::AdjacentNode;
 
